@@ -270,7 +270,10 @@ def renderItem : Item → Str
       ++ ws4 ++ (match cmt with | none => [] | some t => '#' :: t)
 
 /-- the text of a document: its items separated by newlines -/
-def renderDoc (items : List Item) : Str := List.intercalate ['\n'] (items.map renderItem)
+def renderDoc : List Item → Str
+  | [] => []
+  | [it] => renderItem it
+  | it :: r => renderItem it ++ '\n' :: renderDoc r
 
 /-- what a document says: the sequence of `(full key, value)` assignments, starting under prefix `pfx` -/
 def denote : Str → List Item → List (Str × Str)
